@@ -13,7 +13,12 @@ _cache = {}
 
 def parse_file(rel):
   if rel not in _cache:
-    path = os.path.join(REPO, rel)
+    if rel.startswith('@verif/'):
+      # lemma clients: small functions kept in /verif that only *call* contracted functions of
+      # /repo; what is proved about them is a lemma over those contracts, not a fact about /repo
+      path = os.path.join(os.path.dirname(os.path.dirname(os.path.abspath(__file__))), rel[len('@verif/'):])
+    else:
+      path = os.path.join(REPO, rel)
     src = open(path).read()
     _cache[rel] = (src, ast.parse(src))
   return _cache[rel]
@@ -103,6 +108,7 @@ def bind_ast(ctr):
   if a.vararg or a.kwarg:
     ctr.has_var = True
   ctr.is_static = any(isinstance(d, ast.Name) and d.id == 'staticmethod' for d in node.decorator_list)
+  ctr.is_classmethod = any(isinstance(d, ast.Name) and d.id == 'classmethod' for d in node.decorator_list)
   ctr.params = params
   dd = dict(defaults)
   dd.update(ctr.defaults)
@@ -117,6 +123,8 @@ def live_check(ctr):
   import importlib
   import inspect
   import textwrap
+  if ctr.file.startswith('@verif/'):
+    return 'lemma'
   mod = importlib.import_module(ctr.file[:-3].replace('/', '.'))
   obj = mod
   try:
